@@ -434,6 +434,17 @@ theorem bareOK_fields (tbl : Table) (k s : Nat) (h : bareOK tbl (k + 1) s = true
   rw [ht] at this
   exact this
 
+theorem bareFields_len (fs : List Field) : (bareFields fs).length = fs.length := by simp [bareFields]
+
+theorem bareFields_refs (tbl : Table) (k : Nat) (fs : List Field)
+    (h : ∀ fld ∈ fs, ∀ t, bareRef fld.ty = some t → bareOK tbl k t = true) :
+    ∀ fld ∈ bareFields fs, ∀ t, bareRef fld.ty = some t → bareOK tbl k t = true := by
+  intro fld hf t ht
+  simp only [bareFields, List.mem_map] at hf
+  obtain ⟨f0, hf0, rfl⟩ := hf
+  apply h f0 hf0 t
+  cases hty : f0.ty <;> simp only [hty] at ht ⊢ <;> first | exact ht | (simp [bareRef] at ht)
+
 /-! ### one level, then all levels -/
 
 /-- the invariant of depth `f`: a call whose need `(n/4)(R+2) + 1 + k` is within `f` meets `Spec` -/
@@ -522,12 +533,13 @@ theorem inv_succ (tbl : Table) (hid : Ids4 tbl) (R : Nat) (hc : NoBareCycle tbl 
     | succ k' =>
       have hrec := recOK_of_inv tbl hid R N w f hinv b.length k' hb (by omega) (by omega)
       have hfl := fieldsLoop_ok tbl (deser tbl f) w _ _ _ hrec b (hwk b.length k' hb (by omega)) 0 (by omega)
-        (fieldsOf tbl s) 0 none 1 (Nat.le_refl _) (bareOK_fields tbl k' s hok)
+        (bareFields (fieldsOf tbl s)) 0 none 1 (Nat.le_refl _) (bareFields_refs tbl k' _ (bareOK_fields tbl k' s hok))
+      rw [bareFields_len] at hfl
       have hM : (fieldsOf tbl s).length * (1 + tlA (maxFields tbl) k') ≤ maxFields tbl * (1 + tlA (maxFields tbl) k') :=
         Nat.mul_le_mul_right _ (fieldsOf_len tbl s)
       have hA : tlA (maxFields tbl) (k' + 1) = 1 + maxFields tbl * (1 + tlA (maxFields tbl) k') := rfl
       simp only [deser, deserLevel]
-      cases hr : fieldsLoop (deser tbl f) b (fieldsOf tbl s) 0 none 1 with
+      cases hr : fieldsLoop (deser tbl f) b (bareFields (fieldsOf tbl s)) 0 none 1 with
       | oof => rw [hr] at hfl; exact hfl.elim
       | raised st g =>
         rw [hr] at hfl
